@@ -3,8 +3,9 @@ CPU-time watchdog in a worker process; plus scaling families (chains, diamonds, 
 (number of Python function calls of the query, counted with sys.monitoring) must grow polynomially with n.
 
 Oracle (from the property text only): a query RETURNS - it does not raise RecursionError (also wrapped), it does not
-run longer than LIMIT_S seconds of CPU time for a program of <= 40 definitions (confirmed by replaying that one query
-alone in a new process), and work(2n) <= 8 * work(n) + C, never ~doubling per +1 over four consecutive sizes."""
+need more than LIMIT_CALLS Python calls (or LIMIT_S seconds of user CPU) for a program of <= 40 definitions (confirmed
+by replaying that one query alone in a new process), and work(2n) <= 8 * work(n) + C, never ~doubling per +1 over
+four consecutive sizes."""
 import json
 import os
 import random
@@ -13,13 +14,16 @@ import sys
 import time
 from concurrent.futures import ThreadPoolExecutor
 
-LIMIT_S = 20.0          # CPU seconds per query (process CPU time, so a busy machine does not matter much)
+LIMIT_CALLS = 20000000  # work budget per query: Python function calls (deterministic; ~45 x the largest legitimate query)
+LIMIT_S = 90.0          # backstop: seconds of user-mode CPU time of the worker per query (not wall, not system time)
 MAX_HANGS = 3           # after that many aborted queries the rest of the file is skipped (bounds the run on a bad tree)
-FLOOR = 30000           # work units (Python calls) below which growth ratios are noise: the constant C
+FLOOR = 30000           # work units (Python calls): growth below this over a run of sizes is noise
+CONST = 250000          # the constant C of work(2n) <= 8 * work(n) + C (one-time costs such as a lazily loaded stub module)
 # Sandbox artefact, not reported: without typeshed (empty submodule here) list/tuple/dict literals are generic classes over
 # COMPILED builtins, and any attribute access on them (`x = []; x.append`, no cycle in the program at all) recurses in
 # ClassMixin.get_filters -> `yield from cls.get_filters(...)` until RecursionError. Signature: > 90 % of the traceback
 # frames are klass.py:get_filters. Other exceptions (AssertionError in get_filters, ...) are C01's business, only counted.
+HANG = 'query did not return within the work budget of %d Python calls / %g s CPU (confirmed alone)' % (LIMIT_CALLS, LIMIT_S)
 ENV_ARTEFACT = 'RecursionError with > 90 % of the frames in inference/value/klass.py:get_filters'
 FOLLOW = ['goto', 'infer', 'docstring', 'get_signatures', 'defined_names', 'get_line_code', 'get_type_hint',
           'execute', 'parent']
@@ -103,7 +107,7 @@ def random_program(rng, k):
         e = name[j] + ('()' if kind[j] != 'v' and rng.random() < .7 else '')
         if inside and rng.random() < .4:
             e = rng.choice(['self.s', 'self.x', 'self.m()', 'self'])
-        return rng.choice(['%s', '%s', '%s.x', '%s.s', '%s.m()', '[%s]', '%s[0]', '(1, %s)[1]', '{"k": %s}["k"]',
+        return rng.choice(['%s', '%s', '%s.x', '%s.s', '%s.m()', '[%s]', '[%s, 1][0]', '%s[0]', '(1, %s)[1]', '{"k": %s}["k"]',
                            '%s.p', '%s or ' + name[rng.randrange(k)]]) % e
     out = []
     for _ in range(2):
@@ -173,10 +177,12 @@ def child(job):
     import parso
     jedi.settings.cache_directory = job['cache']
     env = jedi.InterpreterEnvironment()      # compiled objects in-process: no pipe to desynchronise on an abort
-    calls = [0]
+    calls, budget = [0], [float('inf')]
 
     def count(code, offset):
         calls[0] += 1
+        if calls[0] > budget[0]:
+            raise _Hang()               # propagates into the running query
     mon = sys.monitoring
     mon.use_tool_id(mon.PROFILER_ID, 'c15')
     mon.register_callback(mon.PROFILER_ID, mon.events.PY_START, count)
@@ -185,23 +191,25 @@ def child(job):
 
     def on_timer(sig, frame):
         raise _Hang()
-    signal.signal(signal.SIGPROF, on_timer)
+    signal.signal(signal.SIGVTALRM, on_timer)
 
     def watched(fn):
         """(status, result, work): status in ok | hang | RecursionError | exc:<type>"""
-        calls[0] = 0
+        calls[0], budget[0] = 0, LIMIT_CALLS
         try:
-            signal.setitimer(signal.ITIMER_PROF, job['limit'])
+            signal.setitimer(signal.ITIMER_VIRTUAL, job['limit'])
             try:
                 res = fn()
             finally:
-                signal.setitimer(signal.ITIMER_PROF, 0)
+                budget[0] = float('inf')        # first: the budget does not apply to the harness itself
+                signal.setitimer(signal.ITIMER_VIRTUAL, 0)
             return 'ok', res, calls[0]
         except _Hang:
-            return 'hang', 'no result after %s s CPU, %d Python calls' % (job['limit'], calls[0]), calls[0]
+            n = calls[0]
+            return 'hang', 'no result after %d Python calls (budget %d calls, %g s user CPU)' % (n, LIMIT_CALLS, job['limit']), n
         except BaseException as e:
             chain, x, frames, tb = [], e, [], e.__traceback__
-            while x is not None and len(chain) < 20:
+            while x is not None and len(chain) < 10000:   # the whole chain: a re-raise per level makes it thousands long
                 chain.append(x)
                 x = x.__cause__ or x.__context__
             while tb is not None:
@@ -225,7 +233,7 @@ def child(job):
             s = jedi.Script('warm = 1\nwarm.real\n' + code, environment=env)
             s.infer(2, 1), s.complete(2, 6)          # load builtins etc. outside the measurement
             out[n] = {}
-            for kind in SCALE_KINDS:
+            for kind in job['kinds']:
                 s = jedi.Script(code + {'infer': '', 'complete': '.', 'get_signatures': '('}[kind], environment=env,
                                 path=os.path.join(job['root'], 'scale_%s.py' % kind))
                 st, res, work = watched(lambda: getattr(s, kind)(line, 2 * (kind != 'infer')))
@@ -263,9 +271,13 @@ def child(job):
             return s.get_names(all_scopes=True, definitions=True, references=True)
         return getattr(s, kind)(l, c)
     todo = [job['only']] if job.get('only') is not None else range(job.get('start', 0), len(queries))
-    script, at, done = None, None, set()
+    script, at, done, blind = None, None, set(), set()
     for qi in todo:
         kind, l, c = queries[qi]
+        if (l * 31 + c) % job['parts'] != job['part'] and job.get('only') is None:
+            continue                     # a long file is shared between several workers, by position
+        if (l, c) in blind and job.get('only') is None:
+            continue                     # ENV_ARTEFACT seen here: the other kinds of query would only hit it again
         if at != (l, c) or (qi + rot) % 4 == 0:      # mostly one Script per position, sometimes a cold one
             script, at = jedi.Script(code, path=path, project=project, environment=env), (l, c)
         steps = [(kind, lambda: call(script, kind, l, c))]
@@ -281,6 +293,9 @@ def child(job):
                                         'detail': r})
                 if st == 'hang':
                     break
+                if st == 'env':          # same for the other follow-ups on this definition
+                    blind.update([(l, c)] if label == kind else [])
+                    steps = [x for x in steps if not x[0].startswith(label.split('.')[0] + '.')]
                 continue
             res['nontrivial'] += bool(r)
             if label == kind:        # follow-ups, once per file for the same definition and kind of result
@@ -315,10 +330,10 @@ def run(repo, seed, tier):
     quick = tier == 'quick'
     tmp = os.environ['STANDIN_TMP']
     rng = random.Random(seed)
-    base = {'repo': repo, 'limit': LIMIT_S, 'seed': seed, 'max_queries': 250 if quick else None}
+    base = {'repo': repo, 'limit': LIMIT_S, 'seed': seed, 'max_queries': 200 if quick else None}
     progs = []                      # (label, root, relpath, code)
     items = [(name, {'main.py': code}) for name, code in SINGLE.items()] + list(PROJECTS.items())
-    sizes = [5, 8, 12, 16, 20, 24, 28, 32, 36, 40] if quick else [rng.randrange(3, 41) for _ in range(60)] + [40] * 4
+    sizes = [5, 8, 12, 16, 20, 24, 28, 32, 36, 40] if quick else [rng.randrange(3, 41) for _ in range(36)] + [40] * 4
     items += [('graph-%d-nodes#%d' % (k, i), {'main.py': random_program(rng, k)}) for i, k in enumerate(sizes)]
     for i, (name, files) in enumerate(items):
         root = os.path.join(tmp, 'c15_%d' % i)
@@ -331,35 +346,32 @@ def run(repo, seed, tier):
     def job_for(i, **kw):
         label, root, rel, code = progs[i]
         return dict(base, mode='cycles', root=root, path=os.path.join(root, rel), code=code,
-                    cache=os.path.join(tmp, 'cache_c15_%d' % i), **kw)
+                    cache=os.path.join(tmp, 'cache_c15_%d_%d_%s' % (i, kw['part'], kw.get('only'))), **kw)
 
-    def do_program(i):
-        t0 = time.time()
+    def do_program(arg):
+        i, part, nparts = arg
         parts, start = [], 0
         while start is not None:
-            r = _spawn(job_for(i, start=start), wall=3600)
+            r = _spawn(job_for(i, start=start, part=part, parts=nparts), wall=3600)
             parts.append(r)
             start = r['resume'] if r['resume'] is not None and r['resume'] < r['total'] and len(parts) < MAX_HANGS else None
-        if os.environ.get('C15_DUMP'):
-            print('TIMING', progs[i][0], round(time.time() - t0, 1), sum(r['evaluations'] for r in parts), flush=True)
         return i, parts
 
-    def do_family(fam):
-        t0 = time.time()
-        ns = list(range(1, 25)) if quick else list(range(1, 65))
-        r = _spawn(dict(base, mode='scale', family=fam, sizes=ns, root=tmp,
-                        cache=os.path.join(tmp, 'cache_c15_' + fam)), wall=3600)
-        if os.environ.get('C15_DUMP'):
-            print('TIMING', fam, round(time.time() - t0, 1), flush=True)
-        return fam, r
+    def do_family(arg):
+        fam, kind = arg
+        ns = list(range(1, 17)) + [18, 20, 22, 24] if quick else list(range(1, 65))
+        return fam, _spawn(dict(base, mode='scale', family=fam, kinds=[kind], sizes=ns, root=tmp,
+                                cache=os.path.join(tmp, 'cache_c15_%s_%s' % (fam, kind))), wall=3600)
 
     workers = max(2, min(16, (os.cpu_count() or 4)))
     with ThreadPoolExecutor(workers) as pool:
-        fam_futs = [pool.submit(do_family, fam) for fam in FAMILIES]
-        prog_results = list(pool.map(do_program, sorted(range(len(progs)), key=lambda i: -len(progs[i][3]))))
+        fam_futs = [pool.submit(do_family, (fam, kind)) for fam in FAMILIES for kind in SCALE_KINDS]
+        nparts = [min(6, 1 + len(p[3]) // 200) for p in progs]
+        split = [(i, k, nparts[i]) for i in range(len(progs)) for k in range(nparts[i])]
+        prog_results = list(pool.map(do_program, sorted(split, key=lambda a: -len(progs[a[0]][3]))))
         fam_results = [f.result() for f in fam_futs]
 
-    violations, counts, other, grouped, evaluations, nontrivial, max_work = [], {}, {}, {}, 0, 0, 0
+    violations, counts, other, grouped, evaluations, nontrivial, max_work, slowest = [], {}, {}, {}, 0, 0, 0, [0, '']
 
     def violation(label, inp, observed):
         counts[label] = counts.get(label, 0) + 1
@@ -370,13 +382,13 @@ def run(repo, seed, tier):
         for r in parts:
             evaluations += r['evaluations']
             nontrivial += r['nontrivial']
-            max_work = max(max_work, r['max_work'])
+            max_work, slowest = max(max_work, r['max_work']), max(slowest, r['slowest'] + [label])
             for pr in r['problems']:
                 inp = 'file %s of program %s, query %s; source:\n%s' % (rel, label, pr['what'], code)
                 if pr['status'] == 'hang':     # replay this single query alone, now that the pool is idle
-                    again = _spawn(job_for(i, only=pr['query']), wall=3600)
+                    again = _spawn(job_for(i, only=pr['query'], part=0, parts=1), wall=3600)
                     if any(p2['status'] == 'hang' for p2 in again['problems']):
-                        violation('query did not return within %g s of CPU time (confirmed alone)' % LIMIT_S, inp, pr['detail'])
+                        violation(HANG, inp, pr['detail'])
                 elif pr['status'] == 'RecursionError':      # one entry per file and recursion loop, with a count
                     key = (i, pr['detail'].split(' | ')[0])
                     if key not in grouped:
@@ -396,8 +408,11 @@ def run(repo, seed, tier):
                 nontrivial += st == 'ok' and bool(detail)
                 inp = 'scaling family %s, n=%s, query %s at the last use; source:\n%s' % (
                     fam, n, kind, scaling_family(fam, int(n))[:300])
-                if st == 'hang':
-                    violation('query did not return within %g s of CPU time (scaling family)' % LIMIT_S, inp, detail)
+                if st == 'hang':                 # replay this size alone
+                    again = _spawn(dict(base, mode='scale', family=fam, kinds=[kind], sizes=[int(n)], root=tmp,
+                                        cache=os.path.join(tmp, 'cache_c15_again')), wall=3600)
+                    if again[n][kind][0] == 'hang':
+                        violation(HANG, inp, detail)
                 elif st == 'RecursionError':
                     violation('query raised RecursionError', inp, detail)
                 elif st != 'ok':
@@ -406,17 +421,18 @@ def run(repo, seed, tier):
                     w.setdefault(kind, {})[int(n)] = work
         for kind, ws in w.items():
             scale_sample['%s/%s' % (fam, kind)] = [ws[n] for n in sorted(ws) if n in (1, 2, 4, 8, 16, 24, 32, 64)]
-            for n in sorted(ws):
-                if 2 * n in ws and ws[2 * n] > 8 * ws[n] + FLOOR:
+            for n in sorted(ws):        # the first offending n per family and query
+                if 2 * n in ws and ws[2 * n] > 8 * ws[n] + CONST:
                     violation('work grows faster than polynomially: work(2n) > 8 * work(n) + C',
                               'scaling family %s, query %s, n=%d' % (fam, kind, n),
                               'work(%d)=%d, work(%d)=%d; series %s' % (n, ws[n], 2 * n, ws[2 * n], sorted(ws.items())))
+                    break
+            for n in sorted(ws):
                 run4 = [ws.get(n + j) for j in range(5)]
-                if None not in run4 and run4[0] > FLOOR and all(run4[j + 1] >= 1.8 * run4[j] for j in range(4)):
+                if None not in run4 and run4[4] - run4[0] > FLOOR and all(run4[j + 1] >= 1.8 * run4[j] for j in range(4)):
                     violation('work grows exponentially: it (nearly) doubles per +1 in n over four consecutive sizes',
                               'scaling family %s, query %s, n=%d..%d' % (fam, kind, n, n + 4), 'work %s' % run4)
-    if os.environ.get('C15_DUMP'):
-        json.dump([violations, fam_results], open(os.environ['C15_DUMP'], 'w'))
+                    break
     return {'name': 'C15.cycles-and-scaling', 'contract': 'C15.returns-bounded',
             'evaluations': evaluations, 'distinct_nontrivial': nontrivial,
             'rule': '%d hand-written self-referential programs (cyclic assignment, recursion, self/cyclic/factory inheritance, '
@@ -424,12 +440,13 @@ def run(repo, seed, tier):
                     'cycles), %d on-disk import-cycle projects (every file queried), %d seeded random definition graphs with '
                     'cycles (<= 40 nodes): at every name/dot/paren: infer, goto (+follow_imports), help, get_references '
                     '(project+file), get_context, get_signatures, complete, get_names and Name follow-ups (%s) on the first 3 '
-                    'results%s; 8 scaling families (chains, diamonds, trees) n=1..%d x 3 queries (infer, complete, get_signatures on the result). Oracle: each query returns '
-                    'within %g s CPU (hang replayed alone), no RecursionError (also wrapped), no other exception; work = Python '
-                    'calls per query: work(2n) <= 8*work(n)+%d and no 4 consecutive ~doublings. max work seen in a cycle '
-                    'query: %d calls' % (len(SINGLE), len(PROJECTS), len(sizes), ', '.join(FOLLOW),
-                                         ' (quick: at most 250 sampled positions x kinds per file)' if quick else '',
-                                         24 if quick else 64, LIMIT_S, FLOOR, max_work),
+                    'results%s; 8 scaling families (chains, diamonds, trees) n=1..%d x 3 queries (infer, complete, '
+                    'get_signatures on the result). Oracle: each query returns within %d Python calls and %g s user CPU (a hang is replayed alone), no '
+                    'RecursionError (also wrapped); other exceptions are C01 matter and only counted; work = Python '
+                    'calls per query: work(2n) <= 8*work(n)+%d and no 4 consecutive ~doublings (ratio >= 1.8, total growth > 30000). Most work in a cycle '
+                    'query: %d calls; slowest: %s' % (len(SINGLE), len(PROJECTS), len(sizes), ', '.join(FOLLOW),
+                                         ' (quick: at most 200 sampled positions x kinds per file)' if quick else '',
+                                         24 if quick else 64, LIMIT_CALLS, LIMIT_S, CONST, max_work, slowest),
             'samples': [{'program': progs[0][0], 'source': progs[0][3][:200]},
                         {'program': progs[-1][0], 'source': progs[-1][3][:200]},
                         {'work(n) for n in 1,2,4,8,16,24,(32,64)': dict(list(scale_sample.items())[:6])}],
